@@ -335,11 +335,9 @@ impl NetflowParser {
         // chained packets is not limited by the stack).
         while !packet.is_empty() {
             match self.parse_packet_by_version(packet) {
-                Ok(parsed_netflow) => {
-                    results.push(parsed_netflow.result);
-                    // `remaining` is the unparsed tail of `packet`.
-                    let consumed = packet.len().saturating_sub(parsed_netflow.remaining.len());
-                    packet = &packet[consumed..];
+                Ok((remaining, result)) => {
+                    results.push(result);
+                    packet = remaining;
                 }
                 Err(NetflowParseError::UnallowedVersion(_)) => break,
                 Err(e) => {
@@ -370,11 +368,11 @@ impl NetflowParser {
 
     /// Checks the first u16 of the packet to determine the version.  Parses the packet based on the version.
     /// If the version is unknown it returns an error.  If the packet is incomplete it returns an error.
-    /// If the packet is parsed successfully it returns the parsed Netflow packet and the remaining bytes.
+    /// If the packet is parsed successfully it returns the remaining bytes and the parsed Netflow packet.
     fn parse_packet_by_version<'a>(
-        &'a mut self,
+        &mut self,
         packet: &'a [u8],
-    ) -> Result<ParsedNetflow, NetflowParseError> {
+    ) -> Result<(&'a [u8], NetflowPacket), NetflowParseError> {
         let (packet, version) = GenericNetflowHeader::parse(packet)
             .map(|(remaining, header)| (remaining, header.version))
             .map_err(|e| NetflowParseError::Incomplete(e.to_string()))?;
@@ -384,10 +382,10 @@ impl NetflowParser {
         }
 
         match version {
-            5 => V5Parser::parse(packet),
-            7 => V7Parser::parse(packet),
-            9 => self.v9_parser.parse(packet),
-            10 => self.ipfix_parser.parse(packet),
+            5 => V5Parser::parse_packet(packet),
+            7 => V7Parser::parse_packet(packet),
+            9 => self.v9_parser.parse_packet(packet),
+            10 => self.ipfix_parser.parse_packet(packet),
             _ => Err(NetflowParseError::UnknownVersion(packet.to_vec())),
         }
     }
